@@ -370,6 +370,9 @@ pub fn run(ctx: &mut Ctx) {
     if mode == "upgrade" {
         return run_upgrade(ctx);
     }
+    if mode == "node" {
+        return run_node(ctx);
+    }
     let scratch = Scratch::new();
     for case in ctx.cases(150, 12_000) {
         let mut rng = ctx.rng(case);
@@ -800,5 +803,302 @@ fn run_upgrade(ctx: &mut Ctx) {
             ctx.sample(json!({"case": case, "mode": "upgrade", "history_ops": ops.len(), "old_file_shape": format!("{shape:?}"), "file_system_calls": total - first + 1}));
         }
         let _ = std::fs::remove_file(&old);
+    }
+}
+
+// ---- mode `node`: the process dies while a node starts or changes its default author ------------
+//
+// The persistent state of a docs node is two artefacts in one directory: the store file and the
+// `default-author` file, a reference into the store. The child does what `Engine::spawn` does on a
+// persistent node — open the store, start the store actor, `DefaultAuthor::load` — and then follows a
+// script (create an author and make it the default, with or without a flush in between; flush;
+// restart). strace kills it on entry to the n-th call of each file-system call name (counted per
+// thread, as strace counts). Progress is acknowledged by creating directories (`mkdir` is not a
+// traced call, so acknowledging is never a kill point and survives the kill).
+
+fn node_author(seed: u64, i: u64) -> iroh_docs::Author {
+    let mut b = [0u8; 32];
+    b[..8].copy_from_slice(&seed.to_le_bytes());
+    b[8..16].copy_from_slice(&i.to_le_bytes());
+    b[31] = 0xA7;
+    iroh_docs::Author::from_bytes(&b)
+}
+
+/// Child process of the `node` mode. `arg` = "<dir>|<script>".
+pub fn node_child_main(arg: &str, seed: u64) {
+    use iroh_docs::engine::{DefaultAuthor, DefaultAuthorStorage};
+    let (dir, script) = arg.split_once('|').expect("dir|script");
+    let dir = PathBuf::from(dir);
+    let acks = dir.join("acks");
+    let _ = std::fs::create_dir_all(&acks);
+    let mut seq = 0u32;
+    let mut ack = |kind: &str, id: &AuthorId| {
+        seq += 1;
+        let _ = std::fs::create_dir(acks.join(format!("{seq:04}-{kind}-{}", hex::encode(id.as_bytes()))));
+    };
+    let rt = crate::act::runtime(1);
+    let code = rt.block_on(async {
+        let open = || async {
+            let store = Store::persistent(dir.join("docs.redb"))?;
+            // the database file exists as a database from here on
+            let _ = std::fs::create_dir(dir.join("store-opened"));
+            let sync = crate::act::spawn(store);
+            let da = DefaultAuthor::load(DefaultAuthorStorage::Persistent(dir.join("default-author")), &sync).await?;
+            anyhow::Ok((sync, da))
+        };
+        let (mut sync, mut da) = match open().await {
+            Ok(x) => x,
+            Err(_) => return 3,
+        };
+        ack("a", &da.get());
+        for (i, c) in script.chars().enumerate() {
+            match c {
+                'n' | 'N' => {
+                    let a = node_author(seed, i as u64);
+                    let id = a.id();
+                    if sync.import_author(a).await.is_err() {
+                        return 4;
+                    }
+                    if c == 'N' && sync.flush_store().await.is_err() {
+                        return 4;
+                    }
+                    ack("b", &id);
+                    if da.set(id, &sync).await.is_err() {
+                        return 5;
+                    }
+                    ack("a", &id);
+                }
+                'f' => {
+                    if sync.flush_store().await.is_err() {
+                        return 4;
+                    }
+                }
+                'r' => {
+                    drop(da);
+                    if sync.shutdown().await.is_err() {
+                        return 6;
+                    }
+                    match open().await {
+                        Ok(x) => (sync, da) = x,
+                        Err(_) => return 7,
+                    }
+                    ack("a", &da.get());
+                }
+                _ => {}
+            }
+        }
+        // no orderly shutdown: the process simply ends
+        0
+    });
+    std::process::exit(code);
+}
+
+fn strace_node(exe: &std::path::Path, arg: &str, seed: u64, log: &std::path::Path, kill_at: Option<(String, usize)>) -> Option<std::process::ExitStatus> {
+    let mut c = std::process::Command::new("strace");
+    c.args(["-f", "-qq", "-e", &format!("trace={UPGRADE_SYSCALLS}"), "-o"]).arg(log);
+    if let Some((name, nth)) = kill_at {
+        c.args(["-e", &format!("inject={name}:signal=KILL:when={nth}")]);
+    }
+    c.arg(exe).args(["C06-node-child", "--seed", &seed.to_string(), "--mode", arg]);
+    c.stdout(std::process::Stdio::null()).stderr(std::process::Stdio::null());
+    c.status().ok()
+}
+
+/// Per call name, the largest number of invocations any single thread made (strace's `when=` counts
+/// per traced thread): `inject=<name>:when=n` for n up to that number kills the process at the moment
+/// the first of its threads enters its n-th call of that name.
+fn strace_calls_per_thread(log: &std::path::Path) -> BTreeMap<String, usize> {
+    let text = std::fs::read_to_string(log).unwrap_or_default();
+    let mut per: BTreeMap<(String, String), usize> = BTreeMap::new();
+    for l in text.lines() {
+        let Some((pid, body)) = l.split_once(' ') else { continue };
+        let body = body.trim_start();
+        if body.starts_with("+++") || body.starts_with("---") || body.starts_with("<...") {
+            continue;
+        }
+        let Some((name, _)) = body.split_once('(') else { continue };
+        *per.entry((pid.to_string(), name.to_string())).or_insert(0) += 1;
+    }
+    let mut out: BTreeMap<String, usize> = BTreeMap::new();
+    for ((_, name), n) in per {
+        let e = out.entry(name).or_insert(0);
+        *e = (*e).max(n);
+    }
+    out
+}
+
+fn node_script(rng: &mut Rng) -> String {
+    let mut s = String::new();
+    for _ in 0..rng.range(1, 5) {
+        s.push(*rng.pick(&['n', 'n', 'N', 'f', 'r']));
+    }
+    if !s.contains('n') && !s.contains('N') {
+        s.push('n');
+    }
+    s
+}
+
+fn run_node(ctx: &mut Ctx) {
+    use iroh_docs::engine::{DefaultAuthor, DefaultAuthorStorage};
+    let scratch = Scratch::new();
+    let exe = std::env::current_exe().unwrap();
+    let probe = std::process::Command::new("strace").arg("-V").stdout(std::process::Stdio::null()).stderr(std::process::Stdio::null()).status();
+    if !probe.map(|s| s.success()).unwrap_or(false) {
+        ctx.harness_error("strace is not available: the node mode cannot place its kills");
+        return;
+    }
+    // what the acknowledgements say: (last acknowledged default, ids whose `set` had begun after it)
+    let read_acks = |dir: &std::path::Path| -> (Option<String>, Vec<String>) {
+        let mut names: Vec<String> = std::fs::read_dir(dir.join("acks")).map(|d| d.filter_map(|e| e.ok()).map(|e| e.file_name().to_string_lossy().into_owned()).collect()).unwrap_or_default();
+        names.sort();
+        let mut last = None;
+        let mut begun = vec![];
+        for n in names {
+            let mut p = n.splitn(3, '-');
+            let (_, kind, id) = (p.next(), p.next().unwrap_or(""), p.next().unwrap_or("").to_string());
+            if kind == "a" {
+                last = Some(id);
+                begun.clear();
+            } else {
+                begun.push(id);
+            }
+        }
+        (last, begun)
+    };
+    // start the node again on what the killed process left behind, twice
+    let restart = |dir: &std::path::Path| -> Result<(String, bool), String> {
+        let rt = crate::act::runtime(1);
+        rt.block_on(async {
+            let mut ids = vec![];
+            let mut in_store = true;
+            for _ in 0..2 {
+                let store = Store::persistent(dir.join("docs.redb")).map_err(|e| format!("store does not open: {e:?}"))?;
+                let sync = crate::act::spawn(store);
+                let r = DefaultAuthor::load(DefaultAuthorStorage::Persistent(dir.join("default-author")), &sync).await;
+                let res = match r {
+                    Ok(da) => {
+                        let id = da.get();
+                        in_store &= matches!(sync.export_author(id).await, Ok(Some(_)));
+                        Ok(hex::encode(id.as_bytes()))
+                    }
+                    Err(e) => Err(format!("{e:#}")),
+                };
+                let _ = sync.shutdown().await;
+                ids.push(res?);
+            }
+            if ids[0] != ids[1] {
+                return Err(format!("default author changes from one start to the next: {} then {}", ids[0], ids[1]));
+            }
+            Ok((ids.pop().unwrap(), in_store))
+        })
+    };
+    for case in ctx.cases(6, 400) {
+        let mut rng = ctx.rng(case);
+        let script = node_script(&mut rng);
+        let seed = rng.next_u64() >> 1;
+        let run_dir = |k: &str| scratch.dir.path().join(format!("node-{case}-{k}"));
+        let dir0 = run_dir("dry");
+        std::fs::create_dir_all(&dir0).unwrap();
+        let log0 = scratch.dir.path().join(format!("node-{case}.strace"));
+        let st = strace_node(&exe, &format!("{}|{script}", dir0.display()), seed, &log0, None);
+        if !st.map(|s| s.success()).unwrap_or(false) {
+            ctx.harness_error(format!("the uninterrupted node start under strace did not exit cleanly: {st:?} (script {script})"));
+            return;
+        }
+        let per = strace_calls_per_thread(&log0);
+        let total: usize = per.values().sum();
+        if total == 0 || !per.contains_key("openat") {
+            ctx.harness_error(format!("strace recorded no file-system calls of the node start: {per:?}"));
+            return;
+        }
+        ctx.eval();
+        ctx.count("kill_points_of_uninterrupted_node_starts", total as u64);
+        // the uninterrupted run itself: everything it acknowledged must be there
+        let judge = |ctx: &mut Ctx, dir: &std::path::Path, at: &str| -> bool {
+            let (last, begun) = read_acks(dir);
+            match restart(dir) {
+                Err(e) if e.starts_with("store does not open") && !dir.join("store-opened").exists() => {
+                    // The process died while redb was creating a brand-new database file; redb refuses
+                    // what is left ("invalid data"). No store call had returned yet, nothing was ever
+                    // acknowledged, and the creation of the file is redb's own (the statement trusts
+                    // it): outside the quantifier, counted and not judged (DESIGN, C06).
+                    ctx.count("killed_while_redb_created_the_file_not_judged", 1);
+                    true
+                }
+                Err(e) => {
+                    let sig = if e.contains("missing from the docs store") {
+                        "node-does-not-start-after-kill:default-author-not-in-store"
+                    } else if e.contains("parse the default author") {
+                        "node-does-not-start-after-kill:default-author-file-unreadable"
+                    } else if e.contains("changes from one start") {
+                        "default-author-changes-between-starts"
+                    } else {
+                        "node-does-not-start-after-kill"
+                    };
+                    ctx.violation(case, sig, json!({"script": script, "killed_at": at, "error": e, "acknowledged_default": last, "set_in_progress": begun}));
+                    false
+                }
+                Ok((id, in_store)) => {
+                    if !in_store {
+                        ctx.violation(case, "default-author-not-in-store", json!({"script": script, "killed_at": at, "default": id}));
+                        return false;
+                    }
+                    if let Some(l) = last {
+                        if id != l && !begun.contains(&id) {
+                            ctx.violation(case, "acknowledged-default-author-lost", json!({"script": script, "killed_at": at, "acknowledged_default": l, "set_in_progress": begun, "default_after_restart": id}));
+                            return false;
+                        }
+                        ctx.count(if id == l { "restarts_with_the_acknowledged_default" } else { "restarts_with_the_default_being_set" }, 1);
+                    } else {
+                        ctx.count("restarts_before_any_acknowledgement", 1);
+                    }
+                    true
+                }
+            }
+        };
+        if !judge(ctx, &dir0, "none") {
+            return;
+        }
+        let _ = std::fs::remove_dir_all(&dir0);
+        let mut points: Vec<(String, usize)> = per.iter().flat_map(|(n, c)| (1..=*c).map(move |i| (n.clone(), i))).collect();
+        let budget = if ctx.is_quick() { 48 } else { 600 };
+        if points.len() > budget {
+            // keep every call on a path (open, rename, link, unlink) and a seeded sample of the data calls
+            let (keep, mut rest): (Vec<_>, Vec<_>) = points.into_iter().partition(|(n, _)| n.starts_with("rename") || n.starts_with("open") || n.starts_with("link") || n.starts_with("unlink") || n == "write");
+            points = keep;
+            while points.len() < budget && !rest.is_empty() {
+                let i = rng.below(rest.len());
+                points.push(rest.swap_remove(i));
+            }
+        }
+        for (name, nth) in points {
+            if ctx.out_of_time() {
+                break;
+            }
+            let tag = format!("{name}{nth}");
+            let dir = run_dir(&tag);
+            std::fs::create_dir_all(&dir).unwrap();
+            let st = strace_node(&exe, &format!("{}|{script}", dir.display()), seed, &scratch.dir.path().join("kill.strace"), Some((name.clone(), nth)));
+            use std::os::unix::process::ExitStatusExt;
+            match st {
+                Some(s) if s.signal() == Some(libc::SIGKILL) || s.code() == Some(137) => ctx.count("children_killed_during_node_start", 1),
+                Some(s) if s.success() => ctx.count("kill_point_not_reached", 1),
+                other => {
+                    ctx.harness_error(format!("strace run of a node start with a kill at {tag} ended unexpectedly: {other:?}"));
+                    return;
+                }
+            }
+            ctx.distinct("calls_killed_at", h64(name.as_bytes()));
+            ctx.distinct("kill_points", h64(tag.as_bytes()));
+            ctx.nontrivial(h64(format!("{case}:{tag}:{}", ctx.seed).as_bytes()));
+            let ok = judge(ctx, &dir, &tag);
+            let _ = std::fs::remove_dir_all(&dir);
+            if !ok {
+                return;
+            }
+        }
+        if ctx.want_sample() {
+            ctx.sample(json!({"case": case, "mode": "node", "script": script, "kill_points": total, "calls": per}));
+        }
     }
 }
